@@ -1,4 +1,5 @@
 import OV.Model.C13Export
+import OV.Model.C13Roundtrip
 import OV.Drivers.Loop
 /-! Line-protocol driver for C13.  Every string is sent hex-encoded with an `x` prefix (`x` = "").
 
@@ -142,6 +143,26 @@ def handleExport (o : Opts) (depth : Nat) (ts : List String) : Option String :=
     pure (showRes (exportFunction o depth ⟨name, dom, ins, outs, attrs, used, ops, nodes⟩))
   | _ => none
 
+/-- `straight <opts> <depth> M …`: is the model in the fragment of `export_roundtrip_partial`, and if so the
+    node list the converter is predicted to read back (`progToGraph (exportStraight …)`). -/
+def handleStraight (o : Opts) (ts : List String) : Option String :=
+  match ts with
+  | "M" :: ts => do
+    let (gname, ts) ← pStr ts
+    let (fname, ts) ← (match ts with
+      | "-" :: ts => some (none, ts)
+      | _ => (pStr ts).map (fun p => (some p.1, p.2)))
+    let (ops, ts) ← pList pOpset ts
+    let (g, _) ← pGraph 64 ts
+    let m : ModelP := ⟨gname, fname, ops, g⟩
+    if straightModel o m then
+      let g' := progToGraph (exportStraight o m)
+      let showNode (n : Node) : String :=
+        n.op ++ "|" ++ n.domain ++ "|" ++ comma n.ins ++ "|" ++ comma n.outs ++ "|" ++ comma (n.attrs.map (·.1))
+      pure ("1 ; " ++ comma g'.inputs ++ " ; " ++ comma g'.outputs ++ " ; " ++ " ; ".intercalate (g'.nodes.map showNode))
+    else pure "0"
+  | _ => some "0"
+
 def handle (args : List String) : String :=
   match args with
   | ["cleanup", s] =>
@@ -157,6 +178,10 @@ def handle (args : List String) : String :=
     (match parseOpts os, names.mapM unhex with
      | some o, some ns => comma ((renameTable o ns).map (·.2))
      | _, _ => "bad-op")
+  | "straight" :: os :: _ :: rest =>
+    (match parseOpts os with
+     | some o => (handleStraight o rest).getD "bad-op"
+     | none => "bad-op")
   | "export" :: os :: depth :: rest =>
     (match parseOpts os, depth.toNat? with
      | some o, some d => (handleExport o d rest).getD "bad-op"
